@@ -15,10 +15,10 @@ def prop(pid, **kw):
 prop('C04',
      explanation='contract obligations on the validator closures, generated from the real AST and discharged by SMT')
 prop('C07', explanation='contracts on check_encoding_chars, _split_msh, get_message_info, default resolvers')
-prop('C09', explanation='functional postconditions of the ElementList mutators against the ordered-list model')
-prop('C10', explanation='back-pointer and container-consistency postconditions of the attach path')
-prop('C11', explanation='frame clauses of the read paths and the traversal (temporary parent) path')
-prop('C12', explanation='exceptional postconditions (raises => view unchanged) of the mutators')
+prop('C09', bounded=['histories'], explanation='functional postconditions of the ElementList mutators against the ordered-list model')
+prop('C10', bounded=['histories'], explanation='back-pointer and container-consistency postconditions of the attach path')
+prop('C11', bounded=['histories'], explanation='frame clauses of the read paths and the traversal (temporary parent) path')
+prop('C12', bounded=['histories'], explanation='exceptional postconditions (raises => view unchanged) of the mutators')
 prop('C13', explanation='contracts on the format-selection helpers')
 prop('C14', explanation='contracts on name resolution (find_child_reference interface, _find_name, child_at_index)')
 prop('C15', explanation='raises clauses: only declared exception classes escape the header functions')
